@@ -360,3 +360,53 @@ func VH_C16_textline_Q() {
 	vAssertI("C16.textline.lines_stacked", stacked)
 	vAssertI("C16.textline.every_character_once", chars == nchars)
 }
+
+// C16-H5: vertical alignment (ToText's valign with a box height): the block of lines lies inside
+// the box; Top: the first line's ascent touches the top; Bottom: the last line's descent touches the
+// bottom; Center: equal margins; Justify (two or more lines): first line at the top and last line at
+// the bottom.  Shell font with ascent 8, descent 2, line gap 1 (mm); letter advance and box width
+// symbolic (so one or two lines), box height symbolic and large enough for all lines.
+func VH_C16_totext_valign_Q() {
+	if !vInterp() {
+		return
+	}
+	vStub("!(github.com/tdewolff/canvas/text.Shaper).Shape", vhC16Shape)
+	vStub("!github.com/tdewolff/canvas/text.EmbeddingLevels", vhC16Levels)
+	vStub("!github.com/tdewolff/canvas/text.LookupScript", vhC16Script)
+	s := []string{"ab cd", "abc"}[vChoose(0, 1)]
+	valign := []TextAlign{Top, Center, Bottom, Justify}[vChoose(0, 3)]
+	la := int32(vNondetIntQ(11))
+	vAssumeI(100 <= la && la <= 900)
+	vhC16Adv = map[rune]int32{' ': 250}
+	for _, r := range s {
+		if r != ' ' {
+			vhC16Adv[r] = la
+		}
+	}
+	width, height := vNondetF64(), vNondetF64()
+	vAssumeI(1 <= width && width <= 60 && 25 <= height && height <= 80)
+	face := vhC16Face()
+	rt := NewRichText(face)
+	rt.WriteString(s)
+	t := rt.ToText(width, height, Left, valign, 0, 0)
+	vAssertI("C16.valign.nothing_cut_off", t.Text == s && len(t.lines) >= 1)
+	if len(t.lines) == 0 {
+		return
+	}
+	const ascent, descent = 8.0, 2.0
+	top := t.lines[0].y - ascent
+	bottom := t.lines[len(t.lines)-1].y + descent
+	vAssertI("C16.valign.inside_box", top >= -1e-9 && bottom <= height+1e-9)
+	switch valign {
+	case Top:
+		vAssertI("C16.valign.top", vhNear(top, 0))
+	case Bottom:
+		vAssertI("C16.valign.bottom", vhNear(bottom, height))
+	case Center:
+		vAssertI("C16.valign.center", vhNear(top, height-bottom))
+	case Justify:
+		if len(t.lines) >= 2 {
+			vAssertI("C16.valign.justify", vhNear(top, 0) && vhNear(bottom, height))
+		}
+	}
+}
